@@ -1357,9 +1357,15 @@ class Interp:
             return self.decide('%s == %s' % (a, b))
         if isinstance(l, Const) and isinstance(r, Const):
             try:
-                return {ast.Lt: l.v < r.v, ast.LtE: l.v <= r.v, ast.Gt: l.v > r.v, ast.GtE: l.v >= r.v}[op]
+                return {ast.Lt: lambda: l.v < r.v, ast.LtE: lambda: l.v <= r.v, ast.Gt: lambda: l.v > r.v, ast.GtE: lambda: l.v >= r.v}[op]()
+            except TypeError as e:
+                raise Raised('TypeError: %s' % e, getattr(n, 'lineno', 0))
             except Exception:
                 raise Undecided('constant comparison failed')
+        if getattr(self, 'concrete_context', False) and op in (ast.Lt, ast.LtE, ast.Gt, ast.GtE) \
+                and ((isinstance(l, (TupleV, ListV, DictV, SetV)) and isinstance(r, Const)) or (isinstance(r, (TupleV, ListV, DictV)) and isinstance(l, Const))
+                     or (isinstance(l, (TupleV, ListV)) and isinstance(r, (TupleV, ListV)) and type(l) is not type(r))):
+            raise Raised("TypeError: '<' not supported between instances of these types", getattr(n, 'lineno', 0))
         if isinstance(l, (TupleV, ListV)) and type(l) is type(r) and op in (ast.Lt, ast.LtE, ast.Gt, ast.GtE):
             try:
                 pl_, pr_ = _plain(l), _plain(r)
